@@ -21,7 +21,7 @@ def var(name, attrs, field=None):
 ANY = {
     "any_tok": "|lex| { let (sel, _len) = crate::cb::note(lex); if sel %% 2 == 0 { @E@::%s } else { @E@::Alt } }",
     "any_res": "|lex| { let (sel, _len) = crate::cb::note(lex); let r: Result<@E@, u8> = match sel { 0 => Ok(@E@::%s), 1 => Ok(@E@::Alt), _ => Err(sel) }; r }",
-    "any_filter": "|lex| { let (sel, _len) = crate::cb::note(lex); if sel %% 2 == 0 { logos::Filter::Emit(@E@::%s) } else { logos::Filter::Skip } }",
+    "any_filter": "|lex| { let (sel, _len) = crate::cb::note(lex); match sel { 0 => logos::Filter::Emit(@E@::%s), 2 => logos::Filter::Emit(@E@::Alt), _ => logos::Filter::Skip } }",
     "any_fr": "|lex| { let (sel, _len) = crate::cb::note(lex); let r: logos::FilterResult<@E@, u8> = match sel { 0 => logos::FilterResult::Emit(@E@::%s), 1 => logos::FilterResult::Emit(@E@::Alt), 2 => logos::FilterResult::Skip, _ => logos::FilterResult::Error(sel) }; r }",
 }
 
